@@ -52,7 +52,7 @@ for k in d['known']:
 n36=[k for k in d['known'] if k['property']=='C36']
 w("* C36: %d divergences of scalar functions from the documented Trino semantics, one id and one predicate each (`checks/c36.py` `CANDIDATE_FINDINGS`, details with source lines in `checks/c36_notes.md`): %s. They are cross-cutting conventions of `evaluate_scalar_func` (NULL arguments read as 0/'' by `get_int_value`, parameter columns read from row 0, invalid arguments mapped to NULL, byte offsets instead of characters) or per-function formulas; repairing them is a rewrite of large parts of a 6,000-line evaluator and some are pinned by the repository's own tests, so only the five panics were repaired." % (len(n36), ', '.join('`%s`'%k['id'] for k in n36)))
 w("")
-w("Why the others were not repaired: `uniqueness_inferred_from_min_max_range` - footer statistics cannot prove uniqueness, so the repair is dropping the rewrite or adding a verified uniqueness source; `reader_loses_sidecar_to_second_builder` - needs a Parquet fallback at four read sites or cross-process locking; the C24 pair - INTERSECT/EXCEPT need a null-safe multiset operator the engine does not have; `cte_scope_global`, `in_subquery_outer_ref_captured...`, `unoptimized_in_subquery_same_name_capture` - binder scoping redesign; `range_offset_frame_excludes_null_keys` - window frame evaluator; the C10 pair - Arrow IPC has no checksum and a flatbuffer verifier pass or payload checksum changes the wire format; `same_file_name_in_two_dirs` - split identity would have to become the full path, which changes every digest peers exchange; `double_statistics_ignore_nan_rows` - Parquet statistics do not record NaN presence, so pruning on DOUBLE columns would have to be disabled or the comparison semantics changed; `orders_custkey...` - deliberate, and the repository's fixtures depend on the generated bytes; `string_function_result_size_unbounded` - needs an engine-wide result-size budget.\n")
+w("Why the others were not repaired: `uniqueness_inferred_from_min_max_range` - footer statistics cannot prove uniqueness, so the repair is dropping the rewrite or adding a verified uniqueness source; the C24 pair - INTERSECT/EXCEPT need a null-safe multiset operator the engine does not have; `cte_scope_global`, `in_subquery_outer_ref_captured...`, `unoptimized_in_subquery_same_name_capture` - binder scoping redesign; `range_offset_frame_excludes_null_keys` - window frame evaluator; the C10 pair - Arrow IPC has no checksum and a flatbuffer verifier pass or payload checksum changes the wire format; `same_file_name_in_two_dirs` - split identity would have to become the full path, which changes every digest peers exchange; `double_statistics_ignore_nan_rows` - Parquet statistics do not record NaN presence, so pruning on DOUBLE columns would have to be disabled or the comparison semantics changed; `orders_custkey...` - deliberate, and the repository's fixtures depend on the generated bytes; `string_function_result_size_unbounded` - needs an engine-wide result-size budget.\n")
 w("### 7.4 False alarms corrected in the machinery\n")
 w("""Each of these was a check reporting a violation on code that satisfies the property; the check was corrected, never the property and never by loosening a right oracle:
 * C09: a double-escaped regular expression failed to strip LIMIT before computing the full reference answer.
